@@ -83,6 +83,29 @@ func checkC08(p *Prog, r *Report) {
 		r.Fail("R08b", "getFfi walks the import graph", gf.Pos(), "no packages.Visit call", "")
 		return
 	}
+	// an FFI name is returned only after the walk and only under the fact that at most one FFI was seen
+	if ips, ok := p.ipaths(gf); ok {
+		bad, n := "", 0
+		for _, ip := range ips {
+			if ip.Exit != "return" || len(ip.Ret) != 2 || ip.Ret[1] != "nil" || ip.Ret[0] == `"none"` {
+				continue
+			}
+			n++
+			walked := len(ip.eventsOf("golang.org/x/tools/go/packages.Visit")) > 0
+			counted := false
+			for k := range ip.Rels {
+				if strings.HasPrefix(k, "len(") && strings.HasSuffix(k, ") <= 1") || strings.HasPrefix(k, "1 == len(") || strings.HasPrefix(k, "len(") && strings.HasSuffix(k, ") == 1") {
+					counted = true
+				}
+			}
+			if !walked || !counted {
+				bad = fmt.Sprintf("the FFI %s is returned on a path that did not walk the import graph (walked=%v) or did not establish that at most one FFI is used (counted=%v): %s", ip.Ret[0], walked, counted, ip.Trace)
+			}
+		}
+		r.Check("R08b", "an FFI is chosen only after the whole walk, when at most one was seen", gf.Pos(), n > 0 && bad == "", bad)
+	} else {
+		r.Unknown("R08b", "an FFI is chosen only after the whole walk, when at most one was seen", gf.Pos(), "paths of getFfi could not be enumerated")
+	}
 	cbFunc := func(v ssa.Value) *ssa.Function {
 		switch x := v.(type) {
 		case *ssa.Function:
